@@ -29,6 +29,35 @@ func FairSeed(nodes []int, steps int, txEvery int) []Action {
 	return s
 }
 
+// FairSeedR: as FairSeed, but the submissions rotate over all nodes (FairSeed submits at the node whose turn it is at
+// every txEvery-th step, which for 2 or 4 nodes and txEvery = 4 is always node 0).
+func FairSeedR(nodes []int, steps int, txEvery int) []Action {
+	var out []Action
+	t := 0
+	for _, a := range FairSeed(nodes, steps, txEvery) {
+		if a.K == "T" {
+			a.A = nodes[t%len(nodes)]
+			t++
+		}
+		out = append(out, a)
+	}
+	return out
+}
+
+// StaticR / LateWitnessR: the static and late-witness seeds with rotating submissions.
+func StaticR(n, steps int) *Scenario {
+	return &Scenario{Name: fmt.Sprintf("staticr%d", n), Cfg: sim.Config{N: n}, Seed: FairSeedR(seq(n), steps, 4)}
+}
+
+func LateWitnessR(quiet, steps int) *Scenario {
+	seed := FairSeedR(seq(4), 9, 4)
+	seed = append(seed, Action{K: "S", A: 3})
+	seed = append(seed, FairSeedR([]int{0, 1, 2}, quiet, 4)...)
+	seed = append(seed, Action{K: "H", A: 3})
+	seed = append(seed, FairSeedR(seq(4), steps, 4)...)
+	return &Scenario{Name: "latewitnessr4", Cfg: sim.Config{N: 4}, Seed: seed}
+}
+
 func seq(n int) []int {
 	r := make([]int, n)
 	for i := range r {
